@@ -18,7 +18,8 @@ MIX['C16'] = {'new': 4, 'add_gate': 7, 'rename': 4, 'replace_subcircuit': 2, 'co
 MIX['C11'] = {'new': 4, 'add_gate': 7, 'rename': 4, 'connect': 2, 'mark_output': 2, 'set_outputs': 1, 'remove_gate': 1,
               'replace_inputs': 1, 'into_bench': 1, 'gadget': 1, 'bench_roundtrip': 12, 'bench_layout': 6, 'bench_bad_text': 2}
 MIX['C20'] = {'new': 4, 'add_gate': 8, 'rename': 1, 'connect': 3, 'remove_gate': 1, 'mark_output': 2, 'set_outputs': 1,
-              'replace_subcircuit': 1, 'traverse': 22}
+              'replace_subcircuit': 1, 'into_bench': 2, 'replace_inputs': 1, 'remove_block': 1, 'make_block': 1, 'copy': 1,
+              'traverse': 22}
 FAMILY.update({'tseytin': 'C05', 'circuit_sat': 'C05', 'miter': 'C13', 'pxor_member': 'C13', 'gadget': None})
 
 
